@@ -145,6 +145,9 @@ pub enum Op {
     Rename { t: TRef, to: u8 },
     Delete { t: TRef },
     List,
+    /// create a table whose key (or value) is a user-defined type, reopen it with another
+    /// user-defined type of the same or a different name/width, delete it (custom.rs)
+    TypeProbe { made: u8, reopened: u8, as_key: bool },
     // ---- savepoints (C07)
     SpEphemeral,
     SpPersistent,
